@@ -694,7 +694,7 @@ pub fn run(tier: Tier) -> Report {
 
     rep.set_rule(
         "BFS to fixpoint over the reader's exact state (bytes pulled, buffer length, bit offset, grown?, and the ring buffer's physical layout: capacity and first-slice length) for every source; every operation of the alphabet applied in every state, every step compared with a bit-vector model, a drain probe at every new state; \
-         plus a one-step sweep of all two-byte sources x offsets x widths x types; plus a long-range sweep (one skip of 2^k + d bits, k = 3..25 (thorough 28), d = -9..9, from bit offsets 0, 3 and 8 of a multi-megabyte source, then a 13-bit read, a byte read and the exact reader state; and skips beyond the end of the source up to u32::MAX); non-trivial transition = transaction/union/look-ahead/grow, or any step ending off a byte boundary",
+         plus a one-step sweep of all two-byte sources x offsets x widths x types; plus a long-range sweep (one skip of 2^k + d bits, k = 3..25 (thorough 28), d = -9..9, from bit offsets 0, 3 and 8 of a multi-megabyte source, then reads of several widths in four orders and the exact reader state, or the same inside a transaction that fails and must leave the reader where it started; and skips beyond the end of the source up to u32::MAX); non-trivial transition = transaction/union/look-ahead/grow, or any step ending off a byte boundary",
     );
     rep.sample(json!({"source": "00 80 a5", "history": ["read_bits::<u32>(1)", "commit", "with_transaction{read 17 bits; fail}", "read_u8"]}));
     rep.sample(json!({"source": "ff 80 00 40 12", "history": ["skip_bits(7)", "recognize_start_code(false) -> Some(2)"]}));
@@ -812,6 +812,32 @@ fn long_case(data: &[u8], pre: u32, n: u32, variant: usize) -> Result<(), String
             return if got == exp { Ok(()) } else { Err(format!("after the failed skip the next 13 bits are {got:#x}, the source has {exp:#x} at bit {pre}")) };
         }
         r.map_err(|e| format!("skip_bits({n}) from bit {pre} of a {total}-bit source failed: {e:?}"))?;
+        if variant >= 4 {
+            // the same skip and reads inside a transaction that then fails: everything is undone
+            let mut rd = H263Reader::from_source(data);
+            rd.skip_bits(pre).map_err(|e| format!("skip_bits({pre}) failed: {e:?}"))?;
+            let r: Result<(), Error> = rd.with_transaction(|rd| {
+                rd.skip_bits(n)?;
+                for w in [13u32, 8, 1, 32, 7] {
+                    let _ = rd.read_bits::<u32>(w);
+                }
+                Err(Error::InvalidBitstream)
+            });
+            if !matches!(r, Err(Error::InvalidBitstream)) {
+                return Err(format!("failing transaction around skip_bits({n}) returned {r:?}"));
+            }
+            let (_, bitpos) = rd.verif_state();
+            let got = rd.read_bits::<u32>(13).map_err(|e| format!("read after the failed transaction: {e:?}"))? as u64;
+            let exp = long_bits(pre as usize, 13);
+            if bitpos != pre as usize || got != exp {
+                return Err(format!("after a failed transaction around skip_bits({n}) the reader is at bit {bitpos} and delivers {got:#x}; it started at bit {pre} where the source has {exp:#x}"));
+            }
+            // and the whole stretch can be consumed again
+            rd.skip_bits(n - 13).map_err(|e| format!("second skip after the failed transaction: {e:?}"))?;
+            let got = rd.read_bits::<u32>(9).map_err(|e| format!("read after the second skip: {e:?}"))? as u64;
+            let exp = long_bits(target, 9);
+            return if got == exp { Ok(()) } else { Err(format!("after failed transaction and a second skip_bits the 9 bits at {target} are {got:#x}, the source has {exp:#x}")) };
+        }
         let mut pos = target;
         let orders: [[usize; 4]; 4] = [[13, 8, 1, 32], [8, 13, 32, 1], [32, 1, 8, 13], [1, 7, 16, 8]];
         for w in orders[variant % 4] {
@@ -842,7 +868,10 @@ fn long_range_sweep(rep: &Report, tier: Tier) {
     for k in 3..=kmax {
         for d in -9i64..=9 {
             for pre in [0u32, 3, 8] {
-                for v in 0..4 {
+                for v in 0..5 {
+                    if v == 4 && (d.abs() > 1 || k < 13) {
+                        continue;
+                    }
                     cases.push((pre, ((1i64 << k) + d) as u32, v));
                 }
             }
